@@ -21,6 +21,14 @@ inputs; proofs are in `GoCrypt/Proofs/Argon2Eq/*.lean`.
 | 3.5  `G`            | `processBlock`         | `G`                | `processBlock_eq_G`, `processBlock_xor_eq_G` |
 | 3.2  `m'`           | `key`                  | `4·p·⌊m/4p⌋`       | `key_memory_rule`, `roundedMemory_eq_rfc` |
 | 3.4.2 `W`, `zz`     | `Gen.…indexAlpha`      | `refSet`,`refIndex`| `refSet_closed_form`, `indexAlpha_eq_refIndex` |
+| bytes ↔ words       | `blockOfBytes`, `bytesOfBlock` | same names  | `blockOfBytes_eq`, `bytesOfBlock_eq` |
+| 3.2 steps 3, 4      | `initBlocks`           | `refInit`          | `initBlocks_eq`                  |
+| 3.2 steps 5, 6      | `processSegment`, `processBlocks` | `refSegment`, `refFill` | `segment_eq`, `fill_eq` |
+| 3.2 steps 7, 8      | `extractKey`           | `refFinal`         | `extractKey_eq`                  |
+| 3.2 (all)           | `key`                  | `argon2`           | `key_eq_rfc`, `C04`              |
+
+`refInit`/`refSegment`/`refFill`/`refFinal` are the four parts of the reference's `argon2` (same
+text, `argon2_struct : argon2 … = refFinal … (refFill … (refInit …))` by `rfl`).
 -/
 
 namespace GoCrypt.C04
@@ -129,6 +137,85 @@ theorem indexAlpha_eq_refIndex (rand lanes segments threads n slice lane index :
   subst hlanes
   exact Argon2Eq.indexAlpha_eq_refIndex rand segments threads n slice lane index hrand hseg hmem hslice hlane hidx h0
 
+
+/-! ## (6) the whole derivation -/
+
+/-- the BLAKE2b digest of size `k ≤ 64` has `k` bytes (the only fact about the primitive that the
+composition needs: `initBlocks` patches a 72-byte buffer at offsets 64 and 68) -/
+theorem blake2b_length (k : Nat) (msg : Bytes) (h : k ≤ 64) : (Prim.blake2b k msg).length = k :=
+  Argon2Eq.blake2b_length k msg h
+
+/-- `blockOfBytes`: Go's shift/or loop = the reference's Horner form, for every byte string -/
+theorem blockOfBytes_eq (b : Bytes) : Kdf.Argon2.blockOfBytes b = Spec.Argon2Rfc.blockOfBytes b :=
+  Argon2Eq.blockOfBytes_eq b
+
+/-- `bytesOfBlock`: Go's shift loop = the reference's div/mod form, for every 128-word block -/
+theorem bytesOfBlock_eq (b : Array UInt64) (h : b.size = 128) :
+    Kdf.Argon2.bytesOfBlock b = Spec.Argon2Rfc.bytesOfBlock b :=
+  Argon2Eq.bytesOfBlock_eq b h
+
+/-- the reference is the composition of its four parts (definitional) -/
+theorem argon2_struct (y v : Nat) (P S : Bytes) (p T m t : Nat) :
+    argon2 y v P S p T m t =
+      let H0 := H 64 (LE32 p ++ LE32 T ++ LE32 m ++ LE32 t ++ LE32 v ++ LE32 y
+                  ++ LE32 P.length ++ P ++ LE32 S.length ++ S
+                  ++ LE32 ([] : Bytes).length ++ [] ++ LE32 ([] : Bytes).length ++ [])
+      let m' := 4 * p * (m / (4 * p))
+      let q := m' / p
+      let segLen := q / 4
+      refFinal T p q (refFill y v p q segLen m' t (refInit H0 p q m')) :=
+  Argon2Eq.argon2_struct y v P S p T m t
+
+/-- steps 3, 4: `initBlocks` on `H_0 ‖ 0⁸` = the reference's first two columns -/
+theorem initBlocks_eq (H0 : Bytes) (hH : H0.length = 64) (p q m' : Nat) (hp : 1 ≤ p) (hq : 2 ≤ q) (hm : m' = p * q)
+    (hm32 : m' < 2 ^ 32) :
+    initBlocks (H0 ++ List.replicate 8 0) m' p = refInit H0 p q m' :=
+  Argon2Eq.initBlocks_eq H0 hH p q m' hp hq hm hm32
+
+/-- steps 5, 6 for ONE segment: the model's `processSegment` (lazy address block, `uint32` offsets,
+fuel loop, always-XOR for version ≠ 0x10) = the reference's segment loop, on every memory whose
+blocks have 128 words (`BOk`) and — in pass 0 — whose blocks of this segment are still zero
+(`ZeroFrom`).  Sizes are preserved and nothing outside the segment is written. -/
+theorem segment_eq {m' p q L slice lane : Nat} (D : SegDom m' p q L slice lane) (t y v n : Nat)
+    (B : Array (Array UInt64)) (hB : BOk m' B) (hZ : ZeroFrom q L n slice lane (i0 n slice) B) :
+    processSegment B t m' p y v q L n slice lane = refSegment y v p q L m' t n slice lane B ∧
+    BOk m' (refSegment y v p q L m' t n slice lane B) ∧
+    ∀ pos, (∀ idx, idx < L → pos ≠ lane * q + (slice * L + idx)) →
+      (refSegment y v p q L m' t n slice lane B)[pos]! = B[pos]! :=
+  Argon2Eq.segment_eq D t y v n B hB hZ
+
+/-- steps 5, 6: all passes, slices and lanes -/
+theorem fill_eq {m' p q L : Nat} (hL : 2 ≤ L) (hq : q = 4 * L) (hm : m' = p * q) (hm32 : m' < 2 ^ 32) (hp : 1 ≤ p)
+    (t y v : Nat) (B : Array (Array UInt64)) (h : GInv m' p q L 0 0 B) :
+    processBlocks B t m' p y v = refFill y v p q L m' t B ∧ BOk m' (refFill y v p q L m' t B) :=
+  Argon2Eq.fill_eq hL hq hm hm32 hp t y v B h
+
+/-- steps 7, 8: `extractKey` = XOR of the last column, then `H'` -/
+theorem extractKey_eq (T p q m' : Nat) (B : Array (Array UInt64)) (hp : 1 ≤ p) (hq : 1 ≤ q) (hm : m' = p * q)
+    (hm32 : m' < 2 ^ 32) (hB : BOk m' B) :
+    extractKey B m' p T = refFinal T p q B :=
+  Argon2Eq.extractKey_eq T p q m' B hp hq hm hm32 hB
+
+/-- **model = reference for the whole derivation**, for EVERY type word `y`, version word `v`,
+password, salt, tag length `T` and time cost `t`, `1 ≤ p ≤ 255` lanes and `8p ≤ m < 2^32` KiB.
+(No hypothesis about BLAKE2b is left: `blake2b_length` is proved.) -/
+theorem key_eq_rfc (y v : Nat) (P S : Bytes) (p T m t : Nat)
+    (hp1 : 1 ≤ p) (hp : p ≤ 255) (hm8 : 8 * p ≤ m) (hm32 : m < 2 ^ 32) :
+    key y v P S t m p T = argon2 y v P S p T m t :=
+  Argon2Eq.key_eq_rfc y v P S p T m t hp1 hp hm8 hm32
+
+/-- **C04**, in the words of the property: Argon2d / Argon2i / Argon2id, versions 0x10 and 0x13, any
+password and salt, time cost `≥ 1`, `1..255` lanes, memory `≥ 8 × lanes` KiB (a `uint32`), any key
+length: the derived key is the output of the RFC 9106 algorithm. -/
+theorem C04 (mode version : Nat) (password salt : Bytes) (time memory threads keyLen : Nat)
+    (_hmode : mode = argon2d ∨ mode = argon2i ∨ mode = argon2id)
+    (_hversion : version = version10 ∨ version = version13)
+    (_htime : 1 ≤ time) (hthreads : 1 ≤ threads ∧ threads ≤ 255)
+    (hmemory : 8 * threads ≤ memory) (hmem32 : memory < 2 ^ 32) :
+    key mode version password salt time memory threads keyLen
+      = argon2 mode version password salt threads keyLen memory time :=
+  key_eq_rfc mode version password salt threads keyLen memory time hthreads.1 hthreads.2 hmemory hmem32
+
 /-! ## non-vacuity (both sides evaluated on concrete inputs) -/
 
 -- kernel evaluation
@@ -154,6 +241,16 @@ example : refSet 16 4 0 2 0 0 1 = [0, 1, 2, 3, 4, 5, 6] := by decide
       let r := refIndex 3 16 4 n slice lane index (rand % 2 ^ 32) (rand / 2 ^ 32)
       Gen.argon2crypto.indexAlpha rand 16 4 3 n slice lane index == r.1 * 16 + r.2
 #guard key 2 0x13 [1, 2, 3] [1, 2, 3, 4, 5, 6, 7, 8] 2 19 2 33 == argon2 2 0x13 [1, 2, 3] [1, 2, 3, 4, 5, 6, 7, 8] 2 33 19 2
+#guard key 0 0x10 [1, 2, 3] [1, 2, 3, 4, 5, 6, 7, 8] 2 8 1 32 == argon2 0 0x10 [1, 2, 3] [1, 2, 3, 4, 5, 6, 7, 8] 1 32 8 2
+#guard key 1 0x13 [] [9, 9, 9, 9, 9, 9, 9, 9] 1 27 3 70 == argon2 1 0x13 [] [9, 9, 9, 9, 9, 9, 9, 9] 3 70 27 1
+#guard (key 2 0x13 [1, 2, 3] [1, 2, 3, 4, 5, 6, 7, 8] 2 19 2 33).length == 33
+#guard Kdf.Argon2.blockOfBytes ((List.range 1024).map UInt8.ofNat) == Spec.Argon2Rfc.blockOfBytes ((List.range 1024).map UInt8.ofNat)
+#guard
+  let a : Array UInt64 := (Array.range 128).map fun i => UInt64.ofNat (i * 0x9E3779B97F4A7C15 + 1)
+  Kdf.Argon2.bytesOfBlock a == Spec.Argon2Rfc.bytesOfBlock a && (Spec.Argon2Rfc.bytesOfBlock a).length == 1024
+-- the domain hypotheses of `C04` are satisfiable, and outside them (m < 8p) the two sides differ
+example : (2 : Nat) = argon2id ∧ (0x13 : Nat) = version13 ∧ 8 * 2 ≤ 19 ∧ 19 < 2 ^ 32 := by decide
+#guard key 2 0x13 [1] [1, 2, 3, 4, 5, 6, 7, 8] 1 7 1 32 != argon2 2 0x13 [1] [1, 2, 3, 4, 5, 6, 7, 8] 1 32 7 1
 
 #print axioms blake2bHash_eq_H'
 #print axioms initHash_eq
@@ -169,5 +266,15 @@ example : refSet 16 4 0 2 0 0 1 = [0, 1, 2, 3, 4, 5, 6] := by decide
 #print axioms roundedMemory_eq_rfc
 #print axioms refSet_closed_form
 #print axioms indexAlpha_eq_refIndex
+#print axioms blake2b_length
+#print axioms blockOfBytes_eq
+#print axioms bytesOfBlock_eq
+#print axioms argon2_struct
+#print axioms initBlocks_eq
+#print axioms segment_eq
+#print axioms fill_eq
+#print axioms extractKey_eq
+#print axioms key_eq_rfc
+#print axioms C04
 
 end GoCrypt.C04
